@@ -56,9 +56,9 @@ def Key.wf : Key → Bool
 /-- a Unicode scalar value: a code point that is not a surrogate -/
 def isScalar (c : Nat) : Bool := decide (c < 0xD800) || (decide (0xE000 ≤ c) && decide (c < 0x110000))
 
-def isWs (c : Nat) : Bool := c == 32 || c == 9 || c == 10 || c == 13
+def jIsWs (c : Nat) : Bool := c == 32 || c == 9 || c == 10 || c == 13
 
-def isDigit (c : Nat) : Bool := decide (48 ≤ c) && decide (c ≤ 57)
+def jIsDigit (c : Nat) : Bool := decide (48 ≤ c) && decide (c ≤ 57)
 
 /-- lowercase hexadecimal digit of a number below 16 -/
 def hexDigit (n : Nat) : Nat := if n < 10 then 48 + n else 87 + n
@@ -73,8 +73,8 @@ def hexVal (c : Nat) : Option Nat :=
 /-! ## Printer -/
 
 /-- decimal digits (as characters) of a number, most significant first -/
-def natDigits (n : Nat) : List Nat :=
-  if h : n < 10 then [48 + n] else natDigits (n / 10) ++ [48 + n % 10]
+def jNatDigits (n : Nat) : List Nat :=
+  if h : n < 10 then [48 + n] else jNatDigits (n / 10) ++ [48 + n % 10]
 decreasing_by omega
 
 /-- one character of a string as serde_json writes it -/
@@ -102,7 +102,7 @@ def printJson : Json → List Nat
   | .null => [110, 117, 108, 108]
   | .bool true => [116, 114, 117, 101]
   | .bool false => [102, 97, 108, 115, 101]
-  | .num n => natDigits n
+  | .num n => jNatDigits n
   | .float => [45, 48, 46, 53]
   | .str s => printStr s
   | .arr xs => 91 :: printElems xs
@@ -128,7 +128,7 @@ end
 
 def skipWs : List Nat → List Nat
   | [] => []
-  | c :: cs => if isWs c then skipWs cs else c :: cs
+  | c :: cs => if jIsWs c then skipWs cs else c :: cs
 
 /-- the input behind the given characters -/
 def dropPrefix : List Nat → List Nat → Option (List Nat)
@@ -140,12 +140,12 @@ def dropPrefix : List Nat → List Nat → Option (List Nat)
 def takeDigits : List Nat → List Nat × List Nat
   | [] => ([], [])
   | c :: cs =>
-    if isDigit c then
+    if jIsDigit c then
       match takeDigits cs with
       | (ds, r) => (c :: ds, r)
     else ([], c :: cs)
 
-def digitsVal (ds : List Nat) : Nat := ds.foldl (fun a c => a * 10 + (c - 48)) 0
+def jDigitsVal (ds : List Nat) : Nat := ds.foldl (fun a c => a * 10 + (c - 48)) 0
 
 /-- `int`: `0`, or a digit other than `0` followed by digits -/
 def parseInt (cs : List Nat) : Option (List Nat × List Nat) :=
@@ -187,7 +187,7 @@ def parseNumberBody (neg : Bool) (cs : List Nat) : Option (Json × List Nat) :=
     | some (f, r2) =>
       match parseExp r2 with
       | none => none
-      | some (e, r3) => some (if neg || f || e then Json.float else Json.num (digitsVal ds), r3)
+      | some (e, r3) => some (if neg || f || e then Json.float else Json.num (jDigitsVal ds), r3)
 
 def parseNumber : List Nat → Option (Json × List Nat)
   | [] => none
@@ -317,7 +317,7 @@ def parseValue : Nat → List Nat → Option (Json × List Nat)
     match skipWs cs with
     | [] => none
     | c :: r =>
-      if isDigit c || c == 45 then parseNumber (c :: r)
+      if jIsDigit c || c == 45 then parseNumber (c :: r)
       else if c = 110 then
         match dropPrefix [117, 108, 108] r with
         | none => none
